@@ -794,6 +794,17 @@ func Run(c *vk.Ctx) {
 		}
 	}
 	if c.Replay != "" {
+		var lc LitCase
+		c.LoadReplay(&lc)
+		if lc.Literal {
+			f := runLiteral(lc)
+			fmt.Printf("replay literal %+v\nresult: %s\n", lc, f)
+			if f != "" {
+				c.Violate("replay", f, lc)
+			}
+			c.Finish()
+			return
+		}
 		var cs Case
 		c.LoadReplay(&cs)
 		f := findFn(cs.Fn)
@@ -907,6 +918,7 @@ func Run(c *vk.Ctx) {
 	c.Res.Extra["modes"] = strings.Join(modes, ",")
 	c.Res.Extra["forms"] = strings.Join(glue.FormNames[:], ",")
 	c.Res.Extra["events"] = strings.Join(events, ",")
+	literalPart(c, idx+1000)
 	c.Res.Extra["n_stack_moves_observed"] = nMoved
 	c.Res.Extra["n_cases_skipped_after_poisoning"] = nSkipped
 	c.Finish()
